@@ -708,3 +708,41 @@ contract(F + "Continuum.__ne__", params={"self": CONT(), "other": CONT()}, retur
          requires=["RI(self)", "RI(other)"],
          ensures=[cl("result == (not " + EQV + ")", "C13", name="unequal-iff-annotators-or-units-differ")],
          serves={"C13"})
+
+# C18 X5: add_annotation adds exactly the tracks of a pyannote Annotation (modelled as the list of its (segment, track, label) triples)
+TRACK = lambda: TupleOf(SegT(), StrT(), OptT(StrT()))    # noqa: E731
+contract(F + "Continuum.add_annotation",
+         params={"self": CONT(), "annotator": StrT(), "annotation": ListOf(TRACK())}, modifies=["self"], macros=VIEW_MACROS + [
+             Macro("trackunit", ["k"], "mkunit(annotation[k][0].start, annotation[k][0].end, annotation[k][2])"),
+             Macro("valid", ["k"], "annotation[k][0].end - annotation[k][0].start > 1e-6")],
+         requires=["RI(self)"],
+         raises={"ValueError": {"iff": "exists(k, 0, len(annotation), not valid(k))"}},
+         ensures=[cl("forall([(a, Real)], Ann(self)[a] == (old(Ann(self))[a] or (a == annotator and len(annotation) >= 1)))", "C18",
+                     name="X5-the-annotator-is-added-when-there-is-a-track"),
+                  cl("forall([(a, Real), (u, Unit)], Us(self)[a][u] == (old(Us(self))[a][u] or (a == annotator and "
+                     "exists(k, 0, len(annotation), trackunit(k) == u))))", "C18", name="X5-exactly-one-unit-per-track-segment-and-label-unchanged"),
+                  cl("RI(self)", "C18", name="RI")],
+         loops={"L0": dict(match="for segment, _, label in annotation.itertracks(yield_label=True)", index="kT", modifies=["self"],
+                           inv=["forall(k, 0, kT, valid(k))", "RI(self)",
+                                "forall([(a, Real)], Ann(self)[a] == (old(Ann(self))[a] or (a == annotator and kT >= 1)))",
+                                "forall([(a, Real), (u, Unit)], Us(self)[a][u] == (old(Us(self))[a][u] or (a == annotator and "
+                                "exists(k, 0, kT, trackunit(k) == u))))"])},
+         serves={"C18"})
+
+contract(F + "Continuum.from_rttm",
+         params={"cls": ClassT("Continuum"), "path": StrT()}, returns=CONT(), is_classmethod=True, macros=VIEW_MACROS + [
+             Macro("T", [], "continuum"),
+             Macro("funit", ["f", "k"], "mkunit(FILES[f][1][k][0].start, FILES[f][1][k][0].end, FILES[f][1][k][2])"),
+             Macro("fvalid", ["f", "k"], "FILES[f][1][k][0].end - FILES[f][1][k][0].start > 1e-6")],
+         ghost_vars={"FILES": ("Int", None)},
+         raises={"ValueError": {}},
+         ensures=[cl("fresh_obj(result)", "C18", name="fresh"),
+                  cl("forall([(a, Real), (u, Unit)], Us(result)[a][u] == exists(f, 0, len(FILES), FILES[f][0] == a and "
+                     "exists(k, 0, len(FILES[f][1]), funit(f, k) == u)))", "C18", name="X5-one-unit-per-track-annotator-is-the-uri"),
+                  cl("RI(result)", name="RI")],
+         loops={"L0": dict(match="for uri, annot in annotations.items()", index="fI", modifies=["continuum"],
+                           inv=["RI(T())",
+                                "forall([(a, Real), (u, Unit)], Us(T())[a][u] == exists(f, 0, fI, FILES[f][0] == a and "
+                                "exists(k, 0, len(FILES[f][1]), funit(f, k) == u)))"])},
+         hooks=[("after", "annotations = ...", "FILES = annotations")],
+         serves={"C18"})
